@@ -52,6 +52,7 @@ let result_str = function
   | RErrBadCred -> "badcred"
   | RErrPutDisabled -> "putdisabled"
   | RErrIO -> "ioerror"
+  | RNative -> "native"
   | RCred c -> Printf.sprintf "c:%s:%s:%s:%s" (hex_of_str c.c_user) (hex_of_str c.c_pass)
                  (hex_of_str c.c_refresh) (hex_of_str c.c_access)
 
@@ -184,6 +185,35 @@ let history_bytes id =
              then "same" else "DIFFERENT") in
     Printf.printf "%s RES %s MODE %s BYTES %s REOPEN %s\n" id (String.concat " " (List.rev !res)) mode (String.concat " " (List.rev !sums)) reopen
 
+(* DynamicStore (credentials.NewStore) on the bytes of the file *)
+let history_dynamic id =
+  let allow = (next () = "1") in
+  let init = (match next () with "ABSENT" -> None | "EMPTY" -> Some [] | h -> Some (str_of_hex h)) in
+  let n = next_int () in
+  let ops = times n parse_op in
+  disable_put := false;
+  match open_dynamic init with
+  | None -> Printf.printf "%s LOADERR\n" id
+  | Some (((st0, tops), ents0), helpers) ->
+    let st = ref st0 in
+    let res = ref [] and saved = ref false and ents = ref ents0 and sums = ref [] in
+    List.iter (fun (o, hint) ->
+        let routed = (match o with
+            | Get a | Put (a, _) | Delete a -> ds_route helpers !st a <> None
+            | SetCs _ -> true) in
+        let saves_now = (not routed) && x_saves !st o && not ((not allow) && (match o with Put (_, _) -> true | _ -> false)) in
+        if saves_now then saved := true;
+        ents := retire !ents o saves_now;
+        let (st', r) =
+          if routed then (!st, "native") else begin
+            disable_put := not allow; step_hinted !st (o, hint) end in
+        st := st'; res := r :: !res;
+        sums := (match st'.st_file with
+            | None -> "absent"
+            | Some d -> if !saved then md5 (string_of_str (render_file tops !ents d)) else "orig") :: !sums) ops;
+    disable_put := false;
+    Printf.printf "%s RES %s BYTES %s\n" id (String.concat " " (List.rev !res)) (String.concat " " (List.rev !sums))
+
 (* crash cut: paths are symbolic: D1 D2 .. (the chain of config-directory levels), P (config), T (temp).
    The first token lists the mode of every level, comma separated, "-" = missing. *)
 let p_cfg = str_of_hex "50" and p_tmp = str_of_hex "54"
@@ -298,6 +328,7 @@ let () =
            match kind with
            | "H" -> history id
            | "HB" -> history_bytes id
+           | "DB" -> history_dynamic id
            | "K" -> crash id
            | "KS" -> script id
            | "KE" -> io_error id
